@@ -302,3 +302,46 @@ def rule_label(ctx, R):
             R.finding(b.fn, "pmessage-label:not-per-receiver",
                       "the pmessage frame is not built for each pattern receiver from that receiver's own pattern (%s): a client subscribed to another matching pattern receives the message labelled with the wrong pattern" % (
                           "built once and cached across receivers" if cached else "outside the receiver loop" if not inloop else "pattern does not come from the current receiver"), b.loc(i))
+
+
+# ---- R-PS-BYTES ---------------------------------------------------------------------------------
+BYTE_ALTERING = re.compile(
+    r"(::(to_lowercase|to_uppercase|to_ascii_lowercase|to_ascii_uppercase|make_ascii_lowercase|make_ascii_uppercase|"
+    r"from_utf8_lossy|to_string_lossy|from_utf8|from_utf8_unchecked|to_str|replace|replacen|truncate|split_off|retain|dedup|"
+    r"trim|trim_start|trim_end|trim_ascii|trim_matches|trim_start_matches|trim_end_matches|strip_prefix|strip_suffix|"
+    r"chars|escape_default|escape_debug|escape_ascii|sort|sort_unstable|reverse)(::<.*>)?$)")
+PS_SINK = re.compile(r"^pubsub::(PubSubManager::(subscribe|unsubscribe|psubscribe|punsubscribe|publish)|format_\w+)$")
+
+
+def rule_bytes(ctx, R):
+    """`channel, pattern and payload bytes intact`: whatever the command handlers hand to the
+    subscription manager and to the message formatters is the client's bytes -- on the backward,
+    interprocedural value flow into those arguments there is no lossy or UTF-8-only decoding, case
+    mapping, trimming, cutting, sorting or de-duplication"""
+    import flow
+    n = 0
+    memo = {}
+    for fn, b in sorted(ctx.prog.bodies.items()):
+        if not fn.startswith("network::") or "::tests::" in fn:
+            continue
+        for i, t in b.calls():
+            c = callee(t)
+            if not PS_SINK.match(c):
+                continue
+            cb = ctx.prog.bodies.get(c)
+            for k, a in enumerate(t["a"]):
+                if op_is_const(a):
+                    continue
+                ty = b.locals[op_place(a)["l"]] or ""
+                if "u8" not in ty or "PubSubManager" in ty:
+                    continue
+                n += 1
+                calls = flow.flow_calls(ctx, fn, a, memo=memo)
+                bad = sorted((f_, w, bb_) for (f_, w, bb_) in calls if BYTE_ALTERING.search(f_ or ""))
+                R.inst(fn, "sink:%s#%d" % (c.split("::")[-1], k), {"function": fn, "sink": c, "argument": k, "at": b.loc(i), "calls_on_the_value_flow": len(calls), "byte_altering": [shared.short_callee(x[0]) for x in bad][:4]})
+                if bad:
+                    f_, w, bb_ = bad[0]
+                    R.finding(fn, "sink:%s#%d:altered-by:%s" % (c.split("::")[-1], k, re.search(r"::(\w+)(::<.*>)?$", f_).group(1)),
+                              "the bytes handed to %s (argument %d, line %d) have passed through %s (%s): channel / pattern / payload bytes do not arrive intact -- names that are not valid UTF-8 are stored mangled, so publishes on the real channel are not delivered and distinct names collapse into one"
+                              % (c.split("::")[-1], k, b.bb_line(i), shared.short_callee(f_), ctx.prog.bodies[w].loc(bb_)), b.loc(i))
+    R.floor("pubsub_byte_arguments", n)
